@@ -12082,7 +12082,7 @@ Tree_get_node_argument(Tree *self, PyObject *args, int *node)
     if (Tree_check_state(self) != 0) {
         goto out;
     }
-    if (!PyArg_ParseTuple(args, "I", node)) {
+    if (!PyArg_ParseTuple(args, "i", node)) {
         goto out;
     }
     if (Tree_check_bounds(self, *node)) {
@@ -12116,7 +12116,7 @@ Tree_is_descendant(Tree *self, PyObject *args)
     if (Tree_check_state(self) != 0) {
         goto out;
     }
-    if (!PyArg_ParseTuple(args, "II", &u, &v)) {
+    if (!PyArg_ParseTuple(args, "ii", &u, &v)) {
         goto out;
     }
     if (Tree_check_bounds(self, (tsk_id_t) u)) {
@@ -12380,7 +12380,7 @@ Tree_get_next_sample(Tree *self, PyObject *args)
     if (Tree_check_state(self) != 0) {
         goto out;
     }
-    if (!PyArg_ParseTuple(args, "I", &in_index)) {
+    if (!PyArg_ParseTuple(args, "i", &in_index)) {
         goto out;
     }
     num_samples = (int) tsk_treeseq_get_num_samples(self->tree->tree_sequence);
